@@ -211,6 +211,12 @@ def run_track(case, ctx) -> None:
         except Exception as e:
             ctx.violation(f"{key}:track_scales-raises:{exc_key(e)}", repr(e), source=src)
             return
+        if case["seed"] % 4 == 2:
+            try:  # history: a rejected call first (wrong number of arguments, caught by the caller)
+                tm()
+            except Exception:
+                ctx.count("history:rejected-call-first")
+            captured.clear()
         torch._dynamo.utils.counters.clear()
         ins_t = [t.detach().clone() for t in inputs]
         ins_o = [t.detach().clone().requires_grad_(True) if t.is_floating_point() else t.clone() for t in inputs]
